@@ -102,6 +102,9 @@ class Adapter(EnvAdapter):
                                       probe_every=(2 if n == 50 else 1)))
         for n, b, rew in ((10, 1.0, "dense"), (10, 1.0, "sparse"), (6, 1.5, "sparse"), (20, 2.0, "dense")):
             out.append(_c(f"j{n}_b{str(b).replace('.', 'p')}_{rew}", "jitter", n, b, rew, 40, policies=pol4))
+        out += [_c("u1_b0p5_dense", "uniform", 1, 0.5, "dense", 12, policies=pol4), _c("u2_b0p6_sparse", "uniform", 2, 0.6, "sparse", 12, policies=pol4),
+                _c("u50_b2_int_dense", "uniform", 50, 2, "dense", 4, policies=pol4, probe_every=3),      # integer-typed budget
+                _c("u130_b5_sparse", "uniform", 130, 5.0, "sparse", 3, policies=pol4, probe_every=13, probe_cap=40)]  # > 127 items
         for c in out:       # the registered default is built by the library's own no-argument constructor
             if c["id"] == "u50_b12p5_dense":
                 c["default_ctor"] = True
